@@ -29,6 +29,65 @@ def module(with_export=True):
     return m.encode()
 
 
+def module2(step, with_export=True):
+    """variant for the two-module scenario: the start function adds `step` to cell[arg]"""
+    m = Module()
+    m.import_func('wasi', 'thread-spawn', 'i', 'i')
+    m.mems.append((1, 1, True))
+    m.add_func('i', 'i', (), local_get(0) + call(0), export='spawn')
+    body = local_get(1) + i32_const(4) + op(0x6c) + i32_const(step) + atomic(0x1e, 2, 0) + DROP
+    m.add_func('ii', '', (), body, export='wasi_thread_start' if with_export else 'some_other_export')
+    return m.encode()
+
+
+def build2(flavours, root, b_exports):
+    """two different modules translated with -m (module-name prefixes) linked into one harness with the real wasi.c"""
+    d = os.path.join(root, 'spawn2-%s' % ('both' if b_exports else 'b-noexport'))
+    os.makedirs(d, exist_ok=True)
+    for name, wasm in (('ma', module2(1)), ('mb', module2(100, b_exports))):
+        rc, err = batch.translate(wasm, d, w2c2=mclib.w2c2_binary(), w2c2_args=('-m',), modname=name)
+        if rc != 0:
+            raise mclib.MachineryError('w2c2 -m failed on the two-module thread-spawn scenario: ' + err)
+    defs = ['-include', os.path.join(mclib.MC, 'atomic_points.h'), '-std=gnu99'] + WASI_DEFS + ([] if b_exports else ['-DB_NOEXPORT'])
+    srcs = [os.path.join(d, 'ma.c'), os.path.join(d, 'mb.c'), os.path.join(mclib.MC, 'h_spawn2.c'), os.path.join(REPO, 'wasi', 'wasi.c')]
+    exes = dict(pmap(lambda fl: (fl, mclib.build_harness(d, fl, srcs, incs=[d, os.path.join(REPO, 'w2c2'), os.path.join(REPO, 'wasi')], defs=defs)), flavours))
+    return exes, d
+
+
+def oracle2(job, o):
+    """two modules: every spawn through module X with the export runs X's start function once (counter += step of X, in X's
+    memory only); a spawn through a module without the export returns a negative value and runs nothing"""
+    if o['status'] != 'ok':
+        return [('spawn2|terminal|' + o['status'], 'threads did not all terminate: %s' % o['end'])]
+    fails = []
+    rets = {}
+    for ln in o['obs'].strip().split('\n'):
+        w = ln.split()
+        if len(w) >= 5 and w[1] == 'r':
+            rets[int(w[3][1:])] = (w[3][0], int(w[4]))
+    cells = {}
+    for x in o['end'].split():
+        if x.startswith('x') and ':' in x:
+            a, rest = x[1:].split(':')
+            kv = dict(p.split('=') for p in rest.split(','))
+            cells[int(a)] = (int(kv['inA']), int(kv['inB']))
+    desc = 'returned %s; counters (in ma, in mb) %s' % (rets, cells)
+    ids = [r for mod, r in rets.values() if r > 0]
+    if len(set(ids)) != len(ids):
+        fails.append(('spawn2|duplicate-id', 'two spawns returned the same identifier: %s' % desc))
+    for a, (mod, r) in rets.items():
+        want = (1, 0) if mod == 'a' else ((0, 100) if job['b_exports'] else (0, 0))
+        if mod == 'b' and not job['b_exports']:
+            if r >= 0:
+                fails.append(('spawn2|no-export|non-negative-result', 'module mb does not export wasi_thread_start but its thread-spawn(%d) returned %d: %s' % (a, r, desc)))
+        elif r <= 0:
+            fails.append(('spawn2|non-positive-id', 'thread-spawn(%d) through module m%s returned %d: %s' % (a, mod, r, desc)))
+        if cells.get(a) != want:
+            fails.append(('spawn2|wrong-start-function', 'spawn(%d) through module m%s: run counters (ma, mb) = %s, specified %s (ma\'s start function adds 1 in ma\'s memory, mb\'s adds 100 in mb\'s): %s' % (
+                a, mod, cells.get(a), want, desc)))
+    return fails
+
+
 def build(flavours, root=None, with_export=True):
     d = os.path.join(root or scratch('c15s'), 'spawn' if with_export else 'spawn-noexport')
     os.makedirs(d, exist_ok=True)
@@ -111,9 +170,18 @@ def sched_part(chk, tier):
         for fl in ('plain', 'asan'):
             jobs.append({'case': {'parents': words, 'module': 'without wasi_thread_start export'}, 'words': words, 'exe': exes_n[fl], 'flavour': fl, 'pb': 1, 'db': 0, 'spurious': 0, 'noexport': True,
                          'mix': 'no export', 'jobs': 4, 'weight': 1})
-    mx = mclib.Matrix(chk, [REPO, d, dn], projection=lambda o: (o['status'], tuple(sorted(l for l in o['obs'].split('\n') if ' r ' in l)), o['end']))
+    # two different modules in one process (w2c2 -m): module ma has the export, mb has its own / has none
+    d2s = []
+    for b_exports in (True, False):
+        exes2, d2 = build2(('plain', 'tsan'), root, b_exports)
+        d2s.append(d2)
+        for words, pb in ((['a1.b2'], 1), (['b2.a1'], 1), (['a1', 'b2'], 2 if tier != 'quick' else 1), (['a1.b2.a3'], 1)):
+            for fl in ('plain', 'tsan'):
+                jobs.append({'case': {'parents': words, 'modules': 'ma exports wasi_thread_start (+1), mb %s' % ('exports its own (+100)' if b_exports else 'does not export it')}, 'words': words, 'exe': exes2[fl],
+                             'flavour': fl, 'pb': pb, 'db': 0, 'spurious': 0, 'two': True, 'b_exports': b_exports, 'mix': 'two modules', 'jobs': 4, 'weight': 5})
+    mx = mclib.Matrix(chk, [REPO, d, dn] + d2s, projection=lambda o: (o['status'], tuple(sorted(l for l in o['obs'].split('\n') if ' r ' in l)), o['end']))
     mx.replay_module = 'c15_sched.py'
-    mx.run(jobs, oracle, deadline_at)
+    mx.run(jobs, lambda job, o: oracle2(job, o) if job.get('two') else oracle(job, o), deadline_at)
     mx.report('checks/c15_sched.py', lambda ex, r, key: True)
     st = mx.stats
     if not st['exhaustive']:
